@@ -447,6 +447,17 @@ Definition chk10 (c : cfg) (v : view) (o : op) (ob : obs) (v1 : view) : option v
                else None
          | None => None
          end
+     | OutPublish _ _ _ _ _ _ _ _ =>
+         (* clause 5: delivering (or dropping, e.g. on a full outbound queue) a message for this client leaves every
+            other outbound record of the session alone - in particular the PUBLISHER's own packet identifier means
+            nothing in this session's identifier space *)
+         first_some (fun e =>
+           if is_outbound_rec (snd e) then
+             match snap_get (fst e) sn with
+             | Some r' => if srec_eqb (snd e) r' then None else V 5 (sr_uid (snd e)) (fst e) 0
+             | None => V 5 (sr_uid (snd e)) (fst e) 0
+             end
+           else None) (v_prev v)
      | _ => None
      end).
 
